@@ -38,29 +38,47 @@ Proof.
   - rewrite (parse_uint_loop_nondigits _ 0 H). apply total_err.
 Qed.
 
+Lemma atoi_long_total : forall d, total_res (atoi_long d).
+Proof.
+  intros d. unfold atoi_long.
+  destruct (negb (atoi_long_charset_ok d)); [apply total_err|].
+  destruct d as [|c r]; [apply total_err|].
+  destruct (c =? MINUS).
+  - destruct r; [apply total_err|]. destruct (in_int64b _); [apply total_ok | apply total_err].
+  - destruct (in_int64b _); [apply total_ok | apply total_err].
+Qed.
+
 Lemma atoi_total : forall d, total_res (atoi d).
 Proof.
   intros [|c r]; [apply total_err|]. cbn [atoi].
+  destruct (Nat.ltb MAX_FAST_DIGITS (length (c :: r))); [apply atoi_long_total|].
   destruct (c =? MINUS).
   - pose proof (parse_uint_total r) as [H1 H2].
     destruct (parse_uint r); try congruence; [apply total_ok | apply total_err].
   - apply parse_uint_total.
 Qed.
 
-Lemma atoi_accepts_iff_grammar : forall d,
-  (int_grammar d = true -> exists z, atoi d = Ok z) /\
-  (int_grammar d = false -> exists e, atoi d = Err e).
+Lemma atoi_long_rejects_nongrammar : forall d, int_grammar d = false -> exists e, atoi_long d = Err e.
 Proof.
-  intros [|c r]; cbn [atoi int_grammar].
-  - split; [discriminate | eauto].
-  - destruct (c =? MINUS) eqn:Hm.
+  intros [|c r] H; unfold atoi_long.
+  - cbn. eauto.
+  - cbn [int_grammar] in H. cbn [atoi_long_charset_ok].
+    destruct (c =? MINUS) eqn:Hm.
     + destruct r as [|c2 r2].
-      * cbn. split; [discriminate | eauto].
-      * cbn [length Nat.eqb negb andb]. unfold parse_uint.
-        split; intros H.
-        -- destruct (parse_uint_loop_digits (c2 :: r2) 0 H) as [z Hz]. rewrite Hz. eauto.
-        -- rewrite (parse_uint_loop_nondigits _ 0 H). eauto.
-    + unfold parse_uint. split; intros H.
-      * apply parse_uint_loop_digits; exact H.
-      * rewrite (parse_uint_loop_nondigits _ 0 H). eauto.
+      * rewrite orb_true_r. cbn. eauto.
+      * cbn [length Nat.eqb negb andb] in H. unfold all_digits in H. rewrite H.
+        rewrite andb_false_r. cbn. eauto.
+    + unfold all_digits in H. cbn [forallb] in H. rewrite orb_false_r. rewrite H. cbn. eauto.
+Qed.
+
+Lemma atoi_rejects_nongrammar : forall d, int_grammar d = false -> exists e, atoi d = Err e.
+Proof.
+  intros [|c r] H; cbn [atoi]; [eauto|].
+  destruct (Nat.ltb MAX_FAST_DIGITS (length (c :: r))); [apply atoi_long_rejects_nongrammar; exact H|].
+  cbn [int_grammar] in H.
+  destruct (c =? MINUS) eqn:Hm.
+  - destruct r as [|c2 r2]; [cbn; eauto|].
+    cbn [length Nat.eqb negb andb] in H. unfold parse_uint.
+    rewrite (parse_uint_loop_nondigits _ 0 H). eauto.
+  - unfold parse_uint. rewrite (parse_uint_loop_nondigits _ 0 H). eauto.
 Qed.
